@@ -103,6 +103,11 @@ inductive Op where
   | qmerge (k l : Nat)
   deriving DecidableEq, Repr
 
+/-- the session an op is issued in (`dbcn` goes through the database handle: no session) -/
+def Op.session : Op → Option Nat
+  | .begin k _ | .commit k | .rollback k | .cn k _ | .ce k _ _ _ | .qce k _ _ _ | .qmerge k _ => some k
+  | .dbcn _ => none
+
 /-- what `DriverSess.handle` does to the model world `z.w` -/
 def mstep (w : World) : Op → World
   | .begin k iso => (w.begin k iso).1
